@@ -130,8 +130,14 @@ func effectiveReplayProtectionWindow(replayProtectionWindow int) int {
 	if replayProtectionWindow <= 0 {
 		return defaultReplayProtectionWindow
 	}
+	// The replay detector keeps its window in 64-bit words and trims the top
+	// word correctly only when the window fills it: with any other size it
+	// forgets records it has accepted and accepts them again. A larger window
+	// never delivers a record twice that a smaller one would refuse, so the
+	// configured size is rounded up to whole words.
+	const wordBits = 64
 
-	return replayProtectionWindow
+	return (replayProtectionWindow + wordBits - 1) / wordBits * wordBits
 }
 
 func effectivePaddingLengthGenerator(generator func(uint) uint) func(uint) uint {
